@@ -6,6 +6,7 @@ from ..mon_output import mon_balance_output, mon_balance_raw
 PROPERTY = 'C01'
 CASES = {'quick': 168, 'thorough': 3000}
 BUDGET_S = {'quick': 200, 'thorough': 1800}
+SUITE_UNDER_MONITORS = True      # thorough tier: the repository's own tests are an extra workload under the passive monitors
 RULE = ('case = one random multi-node portfolio (transports with efficiency, multi-commodity factors, CHP/Plant with fuel node, coarse-frequency '
         'and periodic assets, order books, storages with two nodes, structured wrappers) optimised through the real code, monolithic or split '
         '(interval sizes aligned and not aligned with the horizon), then extract_output; the monitor sums the dispatch table per node and step '
